@@ -11,6 +11,7 @@ def units(tier):
         u = Unit(E.EntryNew, {'media': m})
         us.append(u)
     us.append(Unit(E.BootInfoTableRecord))
+    us.append(Unit(E.BootInfoTableParse))
     sizes = [(0, 0), (63, 0), (64, 0), (65, 0), (68, 0), (100, 0), (2048, 0), (2052, 0)] if tier == 'quick' else [(n, 0) for n in list(range(0, 140)) + [2047, 2048, 2049, 2052, 4096, 4100]]
     for n, extra in sizes + [(100, 8), (2052, 40)]:
         us.append(Unit(E.BootInfoChecksum, {'n': n, 'extra': extra}))
